@@ -128,6 +128,13 @@ def _random_streams(rng, tier):
             for _ in range(rng.randrange(2, 12)):
                 s += rng.choice([[FE], [FD], [FE, FD], [FE, FE], [FD, FE], [1, 97], [2, 97, 98]])
         out.append(s)
+    # "alias" segments between valid records: they decode only if one header check is skipped
+    for low in (253, 254, 255):
+        for high in (0, 1):
+            sz = low + 253 * high
+            out.append([5, 104, 101, 108, 108, 111, FE, FD] + [0, low, high] + [9] * sz + [FE, FD, 5, 119, 111, 114, 108, 100])
+            out.append([1, 97, FE, FD] + [1, 7, low, high] + [9] * sz + [0, 0] + [FE, FD, 1, 98])
+    out.append([1, 97, FE, FD] + [253] + [5] * 253 + [FE, FD, 1, 98])
     # crash points of a writer: truncation of one 3-record log at every byte
     base = _log(random.Random(12345), 3)
     for k in range(len(base) + 1):
@@ -181,7 +188,8 @@ def run_stream(res, work, tier, seed):
     # (2) seeded record-rich / faulty streams
     for s in _random_streams(rng, tier):
         for _ in range(2 if tier == "quick" else 3):
-            block = rng.choice([0, 1, 2, 3, 4, 5, 7, 8, 16, 4096, -1]) if len(s) < 3000 else rng.choice([4096, -1])
+            block = rng.choice([0, 1, 2, 3, 4, 5, 7, 8, 16, 4096, -1, (1 << 20) - 1, 1 << 20, (1 << 20) + 1, 2 << 20]) if len(s) < 3000 \
+                else rng.choice([4096, -1, 1 << 20])
             sched = rng.choice(SCHEDS + [[rng.randrange(0, 9) for _ in range(5)] + [4]])
             rid += 1
             runs.append({"run": rid, "cfg": {"kind": "chunker", "stream": s, "block": block, "sched": sched,
